@@ -2,6 +2,7 @@
 From Coq Require Import List NArith ZArith.
 From YV Require Import Base.Wire Model.Binary Proofs.ProtocolProofs.
 From YV Require Import Model.CodedCpp Model.CodedPy Model.PyReadProg Model.PyTypedRead Proofs.PyTypedReadProofs.
+From YV Require Import Model.CppLayout Model.CppReadProg Model.CppTypedRead Proofs.CppTypedReadProofs.
 Import ListNotations.
 Open Scope N_scope.
 
@@ -42,6 +43,7 @@ Print Assumptions C15_py_accepted_header.
 
 Theorem C15_py_own_header_accepted : forall schema rest, arun_p (py_read_header schema) (enc_header schema ++ rest) = PVal tt rest.
 Proof. exact py_header_own. Qed.
+Print Assumptions C15_py_own_header_accepted.
 
 (* a stream written under another schema is refused by the Python reader through its buffered stream, for every buffer size
    >= 4, before any value is read *)
@@ -50,8 +52,22 @@ Theorem C15_py_foreign_refused : forall b sa sb rest, (4 <= b)%nat -> sa <> sb -
 Proof. exact py_header_foreign_buffered. Qed.
 Print Assumptions C15_py_foreign_refused.
 
+(* the same for the generated C++ reader (ReadHeader as a reader program, tied by the log of the instrumented coded_stream.h):
+   its own header is accepted, a stream written under another schema is refused through the buffered stream for every buffer
+   size, before any value is read *)
+Theorem C15_cpp_own_header_accepted : forall schema rest, N.of_nat (length schema) < 2 ^ 64 ->
+  arun_c (cpp_read_header schema) (enc_header schema ++ rest) = CVal tt rest.
+Proof. exact cpp_header_own. Qed.
+Print Assumptions C15_cpp_own_header_accepted.
+
+Theorem C15_cpp_foreign_refused : forall b sa sb rest, (0 < b)%nat -> sa <> sb -> N.of_nat (length sa) < 2 ^ 64 ->
+  mrun_c b (cpp_read_header sb) (cin_init (enc_header sa ++ rest)) = CMBad.
+Proof. exact cpp_header_foreign_buffered. Qed.
+Print Assumptions C15_cpp_foreign_refused.
+
 (* the constants of the model (varint byte budgets, magic bytes, format version, nesting limit, default
    buffer size >= 10) are those of the current sources (Gen/Tables.v is regenerated from /repo on every run) *)
 From YV Require Import Proofs.GenTie.
 Theorem C15_constants_are_the_sources : constants_statement.
 Proof. exact constants_agree. Qed.
+Print Assumptions C15_constants_are_the_sources.
